@@ -2,6 +2,7 @@ package main
 
 import (
 	"fmt"
+	"go/token"
 	"strings"
 
 	"golang.org/x/tools/go/ssa"
@@ -167,8 +168,13 @@ func ruleC09Register(c *Ctx) {
 	c.Floor(rule, 4)
 }
 
-func ruleC07SyncFiles(c *Ctx) {
-	const rule = "C07-SYNC-ORDER"
+func ruleC07SyncFiles(c *Ctx) { ruleSyncFilesAs("C07-SYNC-ORDER", 20)(c) }
+
+func ruleSyncFilesAs(rule string, floor int) ruleFn {
+	return func(c *Ctx) { syncFilesRule(c, rule, floor) }
+}
+
+func syncFilesRule(c *Ctx, rule string, floor int) {
 	if fn := c.Anchor(rule, fTask+"syncFiles"); fn != nil {
 		R := NewRenderer(fn)
 		sf := CallsTo(fn, fTask+"syncFile")
@@ -214,7 +220,7 @@ func ruleC07SyncFiles(c *Ctx) {
 			c.Bad(rule, FnName(fn)+" | transfer error returned", "", "a failed file transfer is not reported", nil)
 		}
 	}
-	c.Floor(rule, 20)
+	c.Floor(rule, floor)
 }
 
 // ---------------------------------------------------------------------------
@@ -576,5 +582,73 @@ func (c *Ctx) reloadWithoutPreload(rule string, fn *ssa.Function, R *Renderer, s
 		c.Guard(rule, h, []ssa.Instruction{inner}, "reload", nil, Need{Desc: "SetPreload(false) first", Instr: func(in ssa.Instruction) bool {
 			return want != "" && callRender(HR, in) == fSrv+"SetPreload("+want+",false)"
 		}})
+	}
+}
+
+// ruleC07Copy: the copy machinery of a rebuild — the decision to skip the copy and the port
+// allocation of the receivers.
+func ruleC07Copy(rule string) ruleFn {
+	return func(c *Ctx) {
+		c.Doc(rule, "isRevisionCountAndChainSame answers true (the file copy may be skipped) only on the edges revision counters equal and reflect.DeepEqual(chains) true; sync agent nextPort returns a port only on the edge on which that very value was found free in processesByPort")
+		if fn := c.Anchor(rule, fTask+"isRevisionCountAndChainSame"); fn != nil {
+			R := NewRenderer(fn)
+			var tr []ssa.Instruction
+			for _, r := range Returns(fn) {
+				for _, x := range phiInputs(strip(r.Results[0])) {
+					if cst, ok := x.(*ssa.Const); ok && constString(cst) == "true" {
+						tr = append(tr, r)
+					}
+				}
+			}
+			var eq, deep string
+			for _, ea := range allAtoms(fn, R) {
+				s := ea.Atom.String()
+				if strings.HasSuffix(s, "==0") && strings.Count(s, ".RevisionCounter") == 2 && !strings.Contains(s, "strconv.") {
+					eq = s
+				}
+				if strings.HasPrefix(s, "reflect.DeepEqual(") && strings.Count(s, ".Chain[+1:]") == 2 {
+					deep = s
+				}
+			}
+			if len(tr) == 0 || eq == "" || deep == "" {
+				c.Bad(rule, FnName(fn)+" | structure", "", "the skip verdict must rest on equality of the two revision counters and DeepEqual of the two chains", nil)
+			} else {
+				c.Guard(rule, fn, tr, "skip the copy", nil, atom("revision counters equal", eq), atom("chains equal", deep))
+			}
+		}
+		if fn := c.Anchor(rule, "(*sync/agent.Server).nextPort"); fn != nil {
+			for i, r := range nilErrorReturns(fn) {
+				rr := r.(*ssa.Return)
+				v := strip(rr.Results[0])
+				key := fmt.Sprintf("%s | return[%d] | the port returned was found free", FnName(fn), i)
+				// edges on which a lookup of *that value* in processesByPort missed
+				R := NewRenderer(fn)
+				free := func(b *ssa.BasicBlock, k int) bool {
+					iff, ok := b.Instrs[len(b.Instrs)-1].(*ssa.If)
+					if !ok {
+						return false
+					}
+					cond, neg := iff.Cond, false
+					if u, ok := cond.(*ssa.UnOp); ok && u.Op == token.NOT {
+						cond, neg = u.X, true
+					}
+					ex, ok := cond.(*ssa.Extract)
+					if !ok || ex.Index != 1 {
+						return false
+					}
+					lk, ok := ex.Tuple.(*ssa.Lookup)
+					if !ok || !strings.HasSuffix(R.V(lk.X), ".processesByPort") || strip(lk.Index) != v {
+						return false
+					}
+					return (k == 1) != neg
+				}
+				if len(Query{Fn: fn, IsSite: func(in ssa.Instruction) bool { return in == r }, GenEdge: free}.Run()) == 0 {
+					c.OK(rule, key, c.P.InstrPos(r), "the returned value is the key of the lookup that missed", true)
+				} else {
+					c.Bad(rule, key, c.P.InstrPos(r), "the in-use test looks up a different value than the port that is handed out: a port with a live receiver can be allocated again", nil)
+				}
+			}
+		}
+		c.Floor(rule, 3)
 	}
 }
